@@ -569,7 +569,7 @@ void iwhmap_clear(struct iwhmap *hm) {
     free(n);
     n = nn;
   }
-  hm->lru_first = 0;
+  hm->lru_first = hm->lru_last = 0;
   hm->count = 0;
 }
 
